@@ -35,14 +35,71 @@ SORTS = {"sort", "sort_by", "sort_by_key", "sort_unstable", "sort_unstable_by", 
 # key = "<function>|<entry text>" ; one line of reason each.
 LEDGER = {
     "compiler::typer::name_resolution::ConstructorIndex::unique_enum_for_variant|enums":
-        "unique-or-none: returns Some(name) only when exactly one entry matches and None on a second hit, so the "
-        "result does not depend on which match is met first",
+        ("unique-or-none: returns Some(name) only when exactly one entry matches and None on a second hit, so the "
+         "result does not depend on which match is met first", "unique_or_none"),
     "compiler::typer::unify::Typer::solve|genv.deps.values":
-        "overload solver: the collected impl schemes are only matched on cardinality (exactly one → used; none / many → "
-        "diagnostic that does not print them)",
+        ("overload solver: the collected impl schemes are only matched on cardinality (exactly one → used; none / many → "
+         "diagnostic that does not print them)", "cardinality_only"),
     "compiler::hir::resolve_constructor_path|full_name_index.iter":
-        "suffix lookup: result used only when exactly one key matches",
+        ("suffix lookup: result used only when exactly one key matches", "single_or_report"),
 }
+
+
+def _ledger_reason_holds(cx, rel, fn_, target, how):
+    """a ledger entry excuses a site for a stated reason; the reason is checked on the syntax, not only stated (a body rewritten under
+    an unchanged key - `enums.iter().find(..)` - must not inherit the excuse)"""
+    par = cx.parents(rel)
+    if how == "unique_or_none":
+        # the hash iteration is the iterable of a `for` loop (no picking terminal), whose body returns None under an `is_some()` test of
+        # the accumulator that it assigns `Some(..)` to
+        loop = next((a for a in par.ancestors(target) if a["k"] == "For"), None)
+        if loop is None or not S.span_contains(loop["iter"]["sp"], target["sp"]):
+            return False, "the iteration is not the iterable of a for loop"
+        accs = {a["left"]["segs"][0] for a in S.find(loop["body"], "Assign")
+                if a["left"]["k"] == "Path" and len(a["left"]["segs"]) == 1 and a["right"]["k"] == "Call" and S.callee_name(a["right"]) == "Some"}
+        for i in S.find(loop["body"], "If"):
+            tested = {c["recv"]["segs"][0] for c in S.find(i["cond"], "MethodCall")
+                      if c["method"] == "is_some" and c["recv"]["k"] == "Path" and len(c["recv"]["segs"]) == 1}
+            rets = [r for r in S.find(i["then"], "Return") if r.get("expr") is not None and S.is_path(r["expr"], "None")]
+            if tested & accs and rets:
+                return True, "second hit returns None"
+        return False, "no `if acc.is_some() { return None }` around the assignment of the accumulator"
+    if how == "cardinality_only":
+        # everything the loop does with an element is pushing it onto a Vec that is afterwards only matched as a slice / measured
+        loop = next((a for a in par.ancestors(target) if a["k"] == "For"), None)
+        if loop is None:
+            return False, "the iteration is not a for loop"
+        vecs = {c["recv"]["segs"][0] for c in S.find(loop["body"], "MethodCall") if c["method"] == "push" and c["recv"]["k"] == "Path" and len(c["recv"]["segs"]) == 1}
+        if len(vecs) != 1 or selecting_exits(loop["body"]):
+            return False, "the loop does more than collect candidates"
+        v = next(iter(vecs))
+        for u in S.walk(fn_.body):
+            if u["k"] == "Path" and u["segs"] == [v]:
+                pu = par.parent(u)
+                if pu is None:
+                    continue
+                if pu["k"] == "MethodCall" and par.role(u) == "recv" and pu["method"] in ("push", "as_slice", "len", "is_empty"):
+                    continue
+                if pu["k"] in ("Local", "PIdent"):
+                    continue
+                return False, f"`{v}` is also used by {pu['k']}{'.' + pu.get('method', '') if pu['k'] == 'MethodCall' else ''} at line {u['sp'][0]}"
+        return True, f"`{v}` is only pushed to and matched as a slice"
+    if how == "single_or_report":
+        # the collected matches are indexed only under a `len() == 1` test
+        loc = next((a for a in par.ancestors(target) if a["k"] == "Local" and a["pat"]["k"] in ("PIdent", "PType")), None)
+        if loc is None:
+            return False, "the matches are not collected into a local"
+        v = S.pat_bindings(loc["pat"])[0]
+        for ix in S.find(fn_.body, "Index"):
+            if S.is_path(ix["base"], v):
+                gate = next((a for a in par.ancestors(ix) if a["k"] == "If" and re.search(re.escape(v) + r"\.len\(\)==1", S.norm_ws(cx.text(rel, a["cond"])).replace(" ", ""))), None)
+                if gate is None:
+                    return False, f"`{v}[..]` outside a `{v}.len() == 1` test"
+        for c in S.find(fn_.body, "MethodCall"):
+            if c["method"] in ORDER_PICKING_TERMINALS | {"first", "pop"} and S.is_path(c["recv"], v):
+                return False, f"`{v}.{c['method']}()` picks one of several matches"
+        return True, f"`{v}` is indexed only when it has one element"
+    return False, "unknown ledger check"
 
 
 def _ordered_container(ty):
@@ -501,9 +558,13 @@ def r13_1(run, cx):
             if wl is not None:
                 verdict, sink = "free", why
         if verdict == "ordered":
-            for lk, reason in LEDGER.items():
+            for lk, (reason, how) in LEDGER.items():
                 if lkey.startswith(lk):
-                    ledger_reason = reason
+                    holds, seen = _ledger_reason_holds(cx, rel, fn_, target, how)
+                    if holds:
+                        ledger_reason = f"{reason} [checked: {seen}]"
+                    else:
+                        sink += f"; the ledger entry's reason does not hold here: {seen}"
         ok = verdict != "ordered" or ledger_reason is not None
         detail = f"{c['args'][0] if kind != 'from-hash' else c['args'][1]} iterated via {tail}; sink: {sink}"
         if ledger_reason:
